@@ -147,7 +147,7 @@ from typing import Any, TypeAlias
 from ...ast.fpyast import *
 from ...ast.visitor import Visitor
 from ...function import Function
-from ...number import INTEGER, REAL, Context, Float, RealFloat
+from ...number import INTEGER, REAL, Context, Float, OverflowMode, RealFloat
 from ...number.format import REAL_FORMAT, Format
 from ...types import (
     BoolType,
@@ -1782,15 +1782,18 @@ class _FormatInferInstance(Visitor):
           legacy intent.
 
         - ``exact ⊄ C`` (some dimension exceeds the scope but others
-          may be tighter): the image ``round_C(exact)`` is bounded by
-          the intersection ``exact & C`` at the
-          :class:`AbstractFormat` level (precision clipped down to
-          ``C``'s, quantum coarsened to ``max(F.exp, C.exp)``, magnitude
-          clipped to ``min(F.bound, C.bound)``).  The intersection is
-          a sound over-approximation of the image and is at most as
-          wide as ``C``.  Phase A widens to ``F & C`` here; Phase B
-          will additionally compute the precise value-image for
-          :class:`SetFormat` operands via :meth:`Context.round`.
+          may be tighter).  If the *range* of ``exact`` exceeds ``C``'s,
+          rounding can overflow — to an infinity, to ``C``'s largest
+          value, or, under ``WRAP``, to any value of ``C`` — and the
+          bound is ``C``'s own format (unless ``C`` raises on overflow,
+          ``OverflowMode.ASSERT``).  Otherwise the image
+          ``round_C(exact)`` consists of values of ``C`` obtained by
+          dropping digits: precision clips down to ``C``'s, the quantum
+          coarsens to ``max(F.exp, C.exp)``, a bound of ``exact`` is kept
+          when it is ``C``-representable (rounding is monotone) and
+          replaced by ``C``'s otherwise, and the special values are those
+          of ``exact`` that ``C`` has -- plus ``C``'s negative zero when
+          ``exact`` has digits below ``C``'s quantum to flush.
 
         :data:`REAL` is the case where ``C.F`` trivially contains every
         value (intersection equals *exact*).  Symbolic scopes return
@@ -1833,32 +1836,56 @@ class _FormatInferInstance(Visitor):
         if scope_af <= exact:
             return scope_fmt
 
-        # Mixed-overlap branch.  Tighten prec/exp unconditionally —
-        # both are sound under any rounding mode.  Tighten bounds
-        # only when F's precision fits in C's.
+        # Mixed-overlap branch: some dimension of F exceeds C, others may be
+        # tighter.
         #
-        # Soundness pitfall on bounds: ``round_C(F.pos_bound)`` can
-        # land up to one ulp_C *above* F.pos_bound (round-up, or
-        # round-to-nearest with a tie pointing away from zero) when
-        # F.pos_bound isn't exactly C-representable.  A naive
-        # ``min(F.pos_bound, C.pos_bound)`` would then under-claim
-        # the image's bound and be unsound.
+        # If F's range exceeds C's, rounding can overflow, and what comes out
+        # then is the context's business -- an infinity, C's largest value
+        # (which has C's precision, not F's), or under ``WRAP`` any value of C
+        # at all.  Nothing tighter than C's own format describes that.  The
+        # exception is ``ASSERT``: an overflow raises, so every value that *is*
+        # produced lies inside C's range and the reasoning below applies.
+        pos_overflows = bool(scope_af.pos_bound < exact.pos_bound)
+        neg_overflows = bool(scope_af.neg_bound > exact.neg_bound)
+        if ((pos_overflows or neg_overflows)
+                and getattr(resolved, 'overflow', None) is not OverflowMode.ASSERT):
+            return scope_fmt
+
+        # No overflow: every result is a value of C obtained by dropping
+        # digits of a value of F.  That keeps F's precision bound (a carry
+        # gives a power of two) and F's quantum, so prec/exp tighten
+        # unconditionally -- both are sound under any rounding mode.
         #
-        # The gate: when ``F.prec <= C.prec``, F.pos_bound has
-        # precision ≤ F.prec ≤ C.prec and is therefore exactly
-        # C-representable, so the intersection's bounds are sound.
-        # When ``F.prec > C.prec`` we fall back to C's bounds.
-        # ``int | float`` comparison works directly with the
-        # ``float('inf')`` sentinel used for unbounded prec.
+        # Soundness pitfall on bounds: ``round_C(F.pos_bound)`` can land up
+        # to one ulp_C *above* F.pos_bound (round-up, or round-to-nearest
+        # with a tie pointing away from zero) when F.pos_bound isn't exactly
+        # C-representable -- whether for its precision or for digits below
+        # C's quantum.  Rounding is monotone, so a bound that *is*
+        # C-representable stays a bound; any other falls back to C's.
         prec = min(exact.prec, scope_af.prec)
         exp = max(exact.exp, scope_af.exp)
-        if exact.prec > scope_af.prec:
-            pos_bound = scope_af.pos_bound
-            neg_bound = scope_af.neg_bound
-        else:
-            pos_bound = min(exact.pos_bound, scope_af.pos_bound)
-            neg_bound = max(exact.neg_bound, scope_af.neg_bound)
-        overlap = AbstractFormat(prec, exp, pos_bound, neg_bound=neg_bound)
+
+        def clip(bound: RealFloat | float, scope_bound: RealFloat | float, overflows: bool):
+            if (not overflows and isinstance(bound, RealFloat)
+                    and scope_fmt.representable_in(bound)):
+                return bound
+            return scope_bound
+
+        # Special values: a result is a value of C, so C decides.  Without
+        # overflow an infinity or a NaN only comes from an operand that is one.
+        # A negative zero comes from one too -- or from rounding a tiny negative
+        # value to zero, which takes digits below C's quantum to drop.
+        overlap = AbstractFormat(
+            prec, exp,
+            clip(exact.pos_bound, scope_af.pos_bound, pos_overflows),
+            neg_bound=clip(exact.neg_bound, scope_af.neg_bound, neg_overflows),
+            has_pos_inf=exact.has_pos_inf and scope_af.has_pos_inf,
+            has_neg_inf=exact.has_neg_inf and scope_af.has_neg_inf,
+            has_nan=exact.has_nan and scope_af.has_nan,
+            has_neg_zero=scope_af.has_neg_zero and (
+                exact.has_neg_zero or exact.exp < scope_af.exp
+            ),
+        )
         return self._materialize_in_scope(overlap, scope_fmt)
 
     @staticmethod
